@@ -10,7 +10,7 @@ Require Import Zrs.lib.RsPrelude Zrs.model.BitIO Zrs.model.FseDec Zrs.model.HufD
 Require Import Zrs.proofs.C13_Huffman.
 Require Import Zrs.model.BitIO Zrs.model.BitStream Zrs.model.HufDec Zrs.proofs.C12_Stream Zrs.proofs.C13_Stream.
 Require Import Zrs.gen.Generated Zrs.model.Headers Zrs.model.BlockDec Zrs.model.LitEnc Zrs.proofs.C13_LitSection.
-Require Import Zrs.proofs.C13_Canonical Zrs.proofs.C13_CanonCode Zrs.proofs.C13_LitAll.
+Require Import Zrs.proofs.C13_Canonical Zrs.proofs.C13_CanonCode Zrs.proofs.C13_LitAll Zrs.proofs.C13_Direct.
 Open Scope Z_scope.
 
 Theorem C13_shape_valid : forall n, 2 <= n <= 256 ->
@@ -141,6 +141,26 @@ Theorem C13_one_stream_huffman_literals_decode : forall t Mn, ht_max_bits t = Z.
                   ht (desc ++ hstream code lits) = ROk (t, lits, zlen (desc ++ hstream code lits)).
 Proof. exact huffman_one_stream_decodes. Qed.
 
+(** the direct weight description (header byte 127 + count, then 4-bit weights, two per byte, first in the high half;
+    what the compressor writes for at most 16 weights, legal up to 128) is parsed into exactly the weights written, so
+    the decoder's table is the table of those weights (and by the structure theorem above the canonical code for them) *)
+Theorem C13_direct_weight_description_roundtrip : forall t ws rest, (1 <= length ws <= 128)%nat -> Forall (fun w => 0 <= w < 16) ws ->
+  read_weights t (direct_desc ws ++ rest) = ROk (ws, ht_fse t, Z.of_nat (length (direct_desc ws))).
+Proof. exact direct_description_roundtrip. Qed.
+
+Theorem C13_table_of_a_direct_description : forall t ws rest, (1 <= length ws <= 128)%nat -> Forall (fun w => 0 <= w < 16) ws ->
+  huf_build_decoder t (direct_desc ws ++ rest) =
+    let* (dec, max_bits, bits, ranks, idxs) := build_table_from_weights ws in
+    ROk ({| ht_decode := dec; ht_len := 2 ^ max_bits; ht_weights := ws; ht_max_bits := max_bits; ht_bits := bits; ht_bit_ranks := ranks;
+            ht_rank_indexes := idxs; ht_fse := ht_fse t |}, Z.of_nat (length (direct_desc ws))).
+Proof. exact direct_description_table. Qed.
+
+Example C13_direct_description_example : direct_desc [2; 1; 1] = [130; 33; 16] /\
+  match huf_build_decoder huf_new ([130; 33; 16] ++ [7]) with ROk (t, used) => used = 3 /\ ht_weights t = [2; 1; 1] | _ => False end.
+Proof. split; [reflexivity|vm_compute; auto]. Qed.
+
+Print Assumptions C13_direct_weight_description_roundtrip.
+Print Assumptions C13_table_of_a_direct_description.
 Print Assumptions C13_raw_and_rle_literals_headers.
 Print Assumptions C13_raw_literals_decode.
 Print Assumptions C13_rle_literals_decode.
